@@ -47,10 +47,16 @@ func c02Judge(root string, cfg wrConfig, before, after map[string]fileState, r R
 		return strings.Join(os, "")
 	}
 	named := map[string]bool{}
+	chmodLogged := map[string]bool{}
 	if autofix {
 		logs, _ := groupAutofix(r.Stdout, root, filepath.Join(root, cfg.Cwd))
-		for rel := range logs {
+		for rel, fl := range logs {
 			named[rel] = true
+			for _, e := range fl.Entries {
+				if e.Kind == 'C' {
+					chmodLogged[rel] = true
+				}
+			}
 		}
 	}
 	for _, rel := range sortedKeys(after) {
@@ -69,6 +75,11 @@ func c02Judge(root string, cfg wrConfig, before, after map[string]fileState, r R
 			}
 			ps = append(ps, c02Problem{"C02/changed-without-autofix/" + what + "/" + fileClass(rel),
 				fmt.Sprintf("%s of %s changed in a run without --autofix (options %s)", what, rel, optclass()), rel})
+		case a.Kind == "f" && b.Kind == "f" && a.Mode != b.Mode && !(chmodLogged[rel] && a.Mode == b.Mode&^0o111):
+			// the save protocol gives the temporary file the mode of the original before the rename;
+			// only "Clearing executable bits" may change a mode
+			ps = append(ps, c02Problem{"C02/mode-not-preserved/" + fileClass(rel),
+				fmt.Sprintf("mode of %s changed from %o to %o with --autofix although only its content was fixed", rel, b.Mode, a.Mode), rel})
 		case !named[rel]:
 			what := "content"
 			if a.Data == b.Data && a.Kind == b.Kind {
